@@ -69,6 +69,16 @@ def run_native(spec, cex):
         if r is not None:
             return r
     fn = getattr(mod, spec["func"])
+    if spec.get("engine") == "bvx":
+        from bvx.api import NativeX, Raised
+        X = NativeX(cex.get("args"), None, W=int(P.get("W", 4096)))
+        try:
+            ok = fn(P, X)
+        except Raised as r:
+            return True, "raise:%s: %s" % (type(r.exc).__name__, str(r.exc)[:200]), "raise:" + type(r.exc).__name__
+        if ok is True:
+            return False, "holds natively", ""
+        return True, "BVX harness verdict false natively for %s" % json.dumps(X.used)[:300], "verdict-false"
     S = ReplayFactory(cex.get("args"))
     try:
         ok = fn(P, S)
